@@ -85,6 +85,7 @@ pub fn dosc_history(out: &mut crate::Out, tag: &str, seed: u64, net: NetID, thor
         let h = d.view().height.0;
         let coins: Vec<(CoinID, CoinDataHeight)> = d.spendable().into_iter().filter(|(_, x)| x.coin_data.denom == Denom::Mel && x.coin_data.value.0 >= 50_000_000 && x.coin_data.value.0 < 50_000_100 && x.height.0 < h).collect();
         let mut it = coins.into_iter();
+        let mut round_mints: Vec<Transaction> = vec![];
         for (tip910, difficulty) in [(false, dl), (true, dt)] {
             let Some(coin) = it.next() else { break };
             let Some(seed_header) = header_at(&d, coin.1.height.0) else { continue };
@@ -125,10 +126,25 @@ pub fn dosc_history(out: &mut crate::Out, tag: &str, seed: u64, net: NetID, thor
                     d.w.batch(d.cur, &[t], 0, json!({"why": why, "age": h - coin.1.height.0}));
                 }
             }
-            // the main line: exactly the bound
+            // the main line: exactly the bound (both mints of the round go into ONE batch, see below)
             if let Some(t) = mint_tx(&mut d, &coin, good, b) {
-                d.apply(&[t], 0, json!({"why": format!("{} proof, ERG = bound ({})", name, b), "age": h - coin.1.height.0}));
+                d.w.batch(d.cur, &[t.clone()], 0, json!({"why": format!("{} proof, ERG = bound ({})", name, b), "age": h - coin.1.height.0}));
+                round_mints.push(t);
             }
+        }
+        // two mints with different speeds in one batch, in both orders and under several pool sizes: the recorded DOSC speed
+        // must be the maximum whatever the order of reduction
+        if !round_mints.is_empty() {
+            let key = format!("C03|{}|mints|{}", tag, round);
+            let mut rev = round_mints.clone();
+            rev.reverse();
+            for (i, (batch, threads)) in [(round_mints.clone(), 1usize), (rev.clone(), 1), (round_mints.clone(), 16), (rev, 2)].iter().enumerate() {
+                if i == 0 {
+                    continue;
+                }
+                d.w.batch(d.cur, batch, *threads, json!({"why": "two mints in one batch", "agreeKey": key}));
+            }
+            d.apply(&round_mints, 0, json!({"why": "two mints in one batch (main line)", "agreeKey": key}));
         }
         // a coin created in this very block cannot seed a puzzle
         if round == 0 {
